@@ -295,6 +295,11 @@ def run(ctx, report):
                       'with identifiers, constants, memory reads, slices, conditionals)', floor=30)
     simpeval.emit_groups(R10, ctx, 'order', 'order-sensitive result')
 
+    from .. import exprobj
+    R11 = report.rule('C13.D11', 'visit() evaluated from the source reaches every sub-expression of every node kind (a sub-expression the traversal skips is never canonised) -- shared with C15.D7', floor=40)
+    exprobj.emit_law(R11, ctx, 'visit-id')
+    exprobj.emit_law(R11, ctx, 'visit-rename')
+
     R7 = report.rule('C13.D7', 'a constant has one representation: the simplifier rebuilds a constant leaf of another integer type in the table\'s (unsigned) type, and every constant it builds '
                      'takes its type from that table or from a constant operand', floor=3)
     hlp7 = ctx.mod('expr_helper')
